@@ -201,7 +201,7 @@ Theorem C14_source_skeletons :
   map C14_syntax.shape C14gen.findSpace = C14_expected.expected_findSpace /\
   map C14_syntax.shape C14gen.setHead = C14_expected.expected_setHead /\
   C14gen.Region_fields = C14_expected.expected_Region_fields /\
-  C14gen.writeAt_text = C14_expected.expected_writeAt_text.
+  map C14_syntax.shape C14gen.writeAt = C14_expected.expected_writeAt.
 Proof. exact C14_skel.all_skel_ok. Qed.
 
 (* WriteSector: new Region state, the list of physical writes IN ORDER, and the outcome *)
@@ -305,3 +305,36 @@ Print Assumptions C14_refinement_failing_medium.
 Print Assumptions C14_failing_medium_fresh.
 Print Assumptions C14_write_failing_medium.
 Print Assumptions C14_load_total.
+
+(* ================= last wave: totality over ARBITRARY files of bytes =================
+   (four bytes always give a 32-bit word: the hypothesis of C14_ReadSector_translated on the length word is
+   discharged from `every stored value is a byte`) *)
+From GoMC Require Proofs.C14_total.
+Theorem C14_read_total : forall s x z, x < 32 -> z < 32 -> log_ok (img s) -> C14_total.bytes_file (img s) ->
+  C14_skel_rw.interp_read s x z = Some (read_sector s x z).
+Proof. exact C14_total.read_total. Qed.
+
+(* Load + ReadSector of every slot on ANY file of bytes, whatever its 8 KiB header says: defined, i.e. a value
+   or one of the named errors, never a stuck state (panic) of the translated bodies *)
+Theorem C14_load_read_total : forall f, log_ok f -> C14_total.bytes_file f ->
+  C14_skel_rw.interp_load f = Some (load f) /\
+  forall s, load f = LOk s -> forall x z, x < 32 -> z < 32 ->
+    C14_skel_rw.interp_read s x z = Some (read_sector s x z).
+Proof. exact C14_total.load_read_total. Qed.
+
+Print Assumptions C14_read_total.
+Print Assumptions C14_load_read_total.
+
+(* writeAt: structured skeleton (the text tie is gone; C14_source_skeletons compares its shape) and interpretation:
+   on a medium that does not fail during the call the translated body makes ONE physical write of the buffer at
+   off - one WriteAt call leaving the position alone when the medium is an io.WriterAt, otherwise Seek + Write
+   leaving the position behind the bytes.  setHead reaches the medium only through this body (execF). *)
+Theorem C14_writeAt_translated : forall fa sh wat st0 vs pos lim buf dat dlen ws nw c off k,
+  Nat.eqb c fa = false -> Nat.eqb (S c) fa = false ->
+  C14_skel_fail.callW fa sh wat C14_skel.CWriteAt [Z.of_N off]
+    (C14_skel.mkist st0 vs pos lim buf dat dlen ws false nw, c) k =
+  k (C14_skel.mkist (C14_skel.st_img st0 (mkwr off buf :: img st0)) vs (if wat then pos else Some (off + flen buf))
+       lim buf dat dlen (ws ++ [mkwr off buf]) false nw, if wat then S c else S (S c)).
+Proof. exact C14_skel_fail.writeAt_interp. Qed.
+
+Print Assumptions C14_writeAt_translated.
